@@ -1,9 +1,9 @@
-// Package erasure_coding: pure-Go TEST DOUBLE for the cgo wrapper pkg/erasure_coding whose Rust
+// Package erasurecoding: pure-Go TEST DOUBLE for the cgo wrapper pkg/erasure_coding whose Rust
 // static library cannot be built offline (crate reed-solomon-simd missing).  Injected by /verif
 // through `go build -overlay` ONLY so that packages importing it link (C18, C32); no property
 // about shard values is decided with it (C30 is not_applicable).  Systematic "code": data shards
 // are the padded data, parity shards are an XOR-fold — recovery works from the data shards only.
-package erasure_coding
+package erasurecoding
 
 import "errors"
 
